@@ -32,23 +32,25 @@ ALPHABETS = {
     "cl": b"059/:" + COMMON + b"+-_.xaAfF,;\xb2",
     "chunk": b"059/:@AFGafg`" + COMMON + b'+-_.x;="\\',
     "hline": b"aZ0:-_!(" + COMMON + b',;="',
+    "tline": b"aZ0:-_!(" + COMMON + b',;="',
     "rline": b"GgT0/:.*HP1" + COMMON + b"?#%[",
 }
 MAXLEN = {
-    "quick": {"cl": 4, "chunk": 4, "hline": 4, "rline": 4},
-    "thorough": {"cl": 5, "chunk": 5, "hline": 5, "rline": 5},
+    "quick": {"cl": 4, "chunk": 4, "hline": 4, "rline": 4, "tline": 3},
+    "thorough": {"cl": 5, "chunk": 5, "hline": 5, "rline": 5, "tline": 4},
 }
 ALLBYTES_LEN = {
-    "quick": {"cl": 2, "chunk": 2, "hline": 2, "rline": 2},
-    "thorough": {"cl": 3, "chunk": 3, "hline": 2, "rline": 2},
+    "quick": {"cl": 2, "chunk": 2, "hline": 2, "rline": 2, "tline": 2},
+    "thorough": {"cl": 3, "chunk": 3, "hline": 2, "rline": 2, "tline": 2},
 }
-GATES = ["cl", "chunk", "hline", "rline"]
+GATES = ["cl", "chunk", "hline", "rline", "tline"]  # tline: a field line in the trailer section of a chunked body
 
 # prefixes / suffixes that put the enumerated string next to valid context
 CONTEXTS = {
     "cl": [(b"", b""), (b"5", b""), (b"", b"5")],
     "chunk": [(b"", b""), (b"5", b""), (b"", b"5"), (b"5;a", b""), (b"5;a=", b""), (b'5;a="', b'"')],
     "hline": [(b"", b""), (b"X-A:", b""), (b"X-A", b": v"), (b"X-A: v", b"")],
+    "tline": [(b"", b""), (b"X-A:", b""), (b"X-A", b": v"), (b"X-A: v", b""), (b"X-A: v\r\n", b""), (b"", b"\r\nX-B: w")],
     "rline": [(b"", b""), (b"GET / HTTP/1.1", b""), (b"", b"GET / HTTP/1.1"), (b"GET /", b" HTTP/1.1"), (b"GET ", b" HTTP/1.1"),
               (b"GET / HTTP/1.", b""), (b"GET / HTTP/", b".1"), (b"GET / HTTP/1", b"1"), (b"GET / HTTP", b"1.1"),
               (b"GET / ", b"/1.1"), (b"GET /", b"HTTP/1.1")],
@@ -64,6 +66,8 @@ def wrap(gate, s):
         return b"GET / HTTP/1.1\r\nHost: h\r\n" + s + b"\r\n\r\n"
     if gate == "rline":
         return s + b"\r\nHost: h\r\n\r\n"
+    if gate == "tline":
+        return b"POST / HTTP/1.1\r\nTransfer-Encoding: chunked\r\n\r\n1\r\nx\r\n0\r\n" + s + b"\r\n\r\n"
     raise ValueError(gate)
 
 
@@ -160,6 +164,28 @@ def judge_case(gate, s, acc, label=""):
         bad("exception:" + detail, f"gate {gate}: parser raised {detail} on {s[:60]!r}")
         return
     if o is None:
+        return
+    if gate == "tline":
+        # the head is fine by construction: the verdict is on the whole message
+        if o.kind == "refuse":
+            acc.count("expect-reject:" + gate)
+            if p.error is None and p.completed:
+                bad("accepts-nonmember:tline", f"trailer line(s) {s[:80]!r} accepted; reference: {o.reason}")
+            elif p.error is not None and p.error.code not in o.statuses:
+                bad("refusal-status:tline", f"status {p.error.code} not in {sorted(o.statuses)} for {s[:60]!r}")
+            elif p.error is None:
+                bad("accepts-nonmember:tline:waits", f"parser waits on trailer {s[:80]!r}; reference refuses: {o.reason}")
+        elif o.kind == "deliver":
+            acc.count("expect-accept:" + gate)
+            if p.error is not None:
+                if p.error.code not in o.may_refuse:
+                    bad("rejects-member:tline", f"valid trailer {s[:80]!r} refused with {p.error.code}")
+            elif not p.completed:
+                bad("rejects-member:tline", f"parser still waits after a complete message with trailer {s[:80]!r}")
+        else:
+            acc.count("expect-incomplete:" + gate)
+            if p.error is None and p.completed:
+                bad("accepts-nonmember:tline", f"message with unfinished trailer {s[:80]!r} delivered")
         return
     if o.kind == "refuse":
         acc.count("expect-reject:" + gate)
@@ -315,6 +341,7 @@ def run_shard(spec):
             "cl": [b"5", b"05", b"50", b" 5", b"5 ", b"5\t"],
             "chunk": [b"5", b"a", b"0", b"05", b"5;a", b"5;a=b", b'5;a="q"', b"0;a", b'5;a="\\q"', b"5;a;b"],
             "hline": [b"X-A: v", b"X-A:v", b"X-A: a b", b"X: \xff", b"X-A:", b"X-A: v "],
+            "tline": [b"X-A: v", b"X-A:v", b"X: \xff", b"X-A: v\r\nX-B: w"],
             "rline": [b"GET / HTTP/1.1", b"GET /a HTTP/1.0", b"X /a", b"GET /a?b HTTP/1.1", b"OPTIONS * HTTP/1.1"],
         }[gate]
         for base in seeds:
